@@ -371,6 +371,16 @@ pub fn load_findings(verif_dir: &Path) -> Vec<Finding> {
         .collect()
 }
 
+static FINDINGS: std::sync::OnceLock<Vec<Finding>> = std::sync::OnceLock::new();
+/// Loads known_findings.json once (called by main before any check runs).
+pub fn init_findings(verif_dir: &Path) -> &'static [Finding] {
+    FINDINGS.get_or_init(|| load_findings(verif_dir))
+}
+/// Is (property, signature) a listed, unrepaired finding?  Generators exclude such cases by construction.
+pub fn known(property: &str, signature: &str) -> bool {
+    FINDINGS.get().map(|f| is_known(f, property, signature)).unwrap_or(false)
+}
+
 /// Is `signature` listed as a *known* (unrepaired) finding for `property`?
 pub fn is_known(findings: &[Finding], property: &str, signature: &str) -> bool {
     findings.iter().any(|f| f.property == property && f.status == "known" && f.signature == signature)
